@@ -321,7 +321,7 @@ class Body:
 
 
 class Facts:
-    def __init__(self, dirpath):
+    def __init__(self, dirpath, files=('rnacos-lib.json', 'rnacos-bin.json')):
         self.dir = dirpath
         self.bodies = {}
         self.adts = {}
@@ -329,7 +329,7 @@ class Facts:
         t0 = time.time()
         import gc, pickle
         gc.disable()   # the fact base is one big acyclic structure; the cyclic GC only costs time while loading it
-        for fn in ('rnacos-lib.json', 'rnacos-bin.json'):
+        for fn in files:
             p = os.path.join(dirpath, fn)
             mp = p + '.pkl'
             d = None
@@ -451,4 +451,19 @@ def load(repo='/repo', features=''):
     if key not in _cache:
         d = extract(repo, features)
         _cache[key] = Facts(d)
+        _cache[key].repo = repo
+    return _cache[key]
+
+
+def load_dep(repo='/repo', crate='async_raft_ext'):
+    """facts of one dependency crate as the repository's build resolves it (bin/extract_dep.sh); cached per resolved source"""
+    key = ('dep', repo, crate)
+    if key not in _cache:
+        cmd = [os.path.join(VERIF, 'bin', 'extract_dep.sh'), repo, crate]
+        r = subprocess.run(cmd, stdout=subprocess.PIPE, stderr=subprocess.PIPE, text=True)
+        if r.returncode != 0:
+            sys.stderr.write(r.stderr)
+            raise RuntimeError('dependency fact extraction failed for %s' % crate)
+        d = r.stdout.strip().splitlines()[-1]
+        _cache[key] = Facts(d, files=('%s-lib.json' % crate,))
     return _cache[key]
